@@ -18,7 +18,7 @@ from mrender import W, ANY
 SRV0 = -16777216       # 0xff000000 as 32-bit two's complement
 TEXTS = ['hello', 'a, b', 'x (y) [z]', 'wl_surface@3', 'nil', '12', 'fd 3', 'new id wl_x@4', ' -> wl_a@1.b()',
          'array', 'héllo ☃', '', 'a=b', "it's", 'tab\there', '1.5', '{q}', '<3>', 'x,y', ', ', '), ']
-CHATTER = ['hello world', '', 'using wayland', '[debug] frame 12', 'wl_surface@3.commit', '[123.456] not a message',
+CHATTER = ['\x1b[1;31mERROR\x1b[0m: no cursor theme', 'plain \x1b[0m reset', 'hello world', '', 'using wayland', '[debug] frame 12', 'wl_surface@3.commit', '[123.456] not a message',
            '(EE) failed', 'a -> b', '[  12.345] wl_x@1.y(', 'éè unicode', 'x' * 200, '[]', '()']
 GAPS = [0, 1, 7, 99, 100, 101, 500, 4999, 5000, 999999, 1000000, 1000001, 2500000, 123456]
 GAPS_DY = [0, 125000, 250000, 875000, 1000000, 1125000, 2000000]
@@ -264,6 +264,16 @@ class ConnGen:
                             'm': {'ttype': 'wl_display', 'tid': 1, 'name': 'delete_id', 'sent': self.server_side,
                                   'args': [{'k': 'int', 'v': o.id}]}}
                 continue
+            if c < 0.385:
+                # another registry later in the session: on any free client id - id 2 included once its first holder is gone
+                free2 = 2 in self.objs and not self.latest(2).alive
+                i = 2 if (free2 and r.random() < 0.7) else self.fresh_id(False)
+                if i in self.freed:
+                    self.freed.remove(i)
+                self.create(i, 'wl_registry')
+                return {'e': 'msg', 'tag': self.tag, 't': t,
+                        'm': {'ttype': 'wl_display', 'tid': 1, 'name': 'get_registry', 'sent': not self.server_side,
+                              'args': [{'k': 'new', 'type': 'wl_registry', 'id': i}]}}
             if c < 0.42:
                 i = self.fresh_id(False)
                 self.create(i, 'wl_callback')
@@ -419,9 +429,14 @@ class MatcherGen:
             return W(w[:r.randint(0, len(w))] + '*')
         if c < 0.85:
             return W('*' + w[r.randint(0, len(w)):])
-        if c < 0.95 and len(w) > 2:
+        if c < 0.90 and len(w) > 2:
             i = r.randint(1, len(w) - 1)
             return W(w[:i - 1] + '*' + w[i:])
+        if c < 0.96 and len(w) > 3:
+            # text on both sides of the `*` that overlaps inside the word: wl_s*surface must not select wl_surface
+            i = r.randint(1, len(w) - 2)
+            j = r.randint(i + 1, len(w) - 1)
+            return W(w[:j] + '*' + w[i:])
         return W('*')
 
     def text(self, pool, depth):
